@@ -18,6 +18,7 @@ import (
 	"github.com/jdillenkofer/pithos/internal/lifecycle"
 	"github.com/jdillenkofer/pithos/internal/storage/database"
 	"github.com/jdillenkofer/pithos/internal/storage/metadatapart/partstore"
+	"github.com/jdillenkofer/pithos/internal/verifhook"
 )
 
 type filesystemPartStore struct {
@@ -108,6 +109,7 @@ func (bs *filesystemPartStore) PutPart(ctx context.Context, tx database.Tx, part
 			} else if !errors.Is(err, fs.ErrNotExist) {
 				return err
 			}
+			_ = verifhook.Hit("fs.put.precommit.after-backup")
 			if err := os.Rename(tempName, filename); err != nil {
 				if backupCreated {
 					_ = os.Rename(backupName, filename)
@@ -116,10 +118,12 @@ func (bs *filesystemPartStore) PutPart(ctx context.Context, tx database.Tx, part
 				return err
 			}
 			published = true
+			_ = verifhook.Hit("fs.put.precommit.after-publish")
 			return nil
 		})
 		tx.OnAfterCommit(func(context.Context) error {
 			if backupCreated {
+				_ = verifhook.Hit("fs.aftercommit.before-remove")
 				return os.Remove(backupName)
 			}
 			return nil
@@ -206,6 +210,7 @@ func (bs *filesystemPartStore) DeletePart(ctx context.Context, tx database.Tx, p
 		tx.OnPreCommit(func(context.Context) error {
 			if err := os.Rename(filename, backupName); err == nil {
 				backupCreated = true
+				_ = verifhook.Hit("fs.delete.precommit.after-backup")
 				return nil
 			} else if errors.Is(err, fs.ErrNotExist) {
 				return nil
@@ -215,6 +220,7 @@ func (bs *filesystemPartStore) DeletePart(ctx context.Context, tx database.Tx, p
 		})
 		tx.OnAfterCommit(func(context.Context) error {
 			if backupCreated {
+				_ = verifhook.Hit("fs.aftercommit.before-remove")
 				return os.Remove(backupName)
 			}
 			return nil
